@@ -336,6 +336,23 @@ let p2 (w : string list) : string =
     fs_result mode (res_str r) "-" rp fs st
   | _ -> failwith "p2: bad command"
 
+(* ---- C05: specification-side validator on the files Create wrote ---- *)
+let c05 (w : string list) : string =
+  match w with
+  | "valid" :: s :: nb :: nin :: rest ->
+    let nin = int_of_string nin in
+    let rec take k w acc = if k = 0 then (List.rev acc, w) else
+      match w with a :: b :: r -> take (k-1) r ((a, b) :: acc) | _ -> failwith "c05: short" in
+    let (ins, rest) = take nin rest [] in
+    let ins = List.map (fun (n, d) -> { in_name = bytes_of_string (unhex n); in_data = bytes_of_string (unhex d) }) ins in
+    (match rest with
+     | nout :: rest ->
+       let (outs, _) = take (int_of_string nout) rest [] in
+       let outs = List.map (fun (i, c) -> (i = "1", bytes_of_string (unhex c))) outs in
+       if valid_set md5_fn (nat_of_int (int_of_string s)) (nat_of_int (int_of_string nb)) ins outs then "valid" else "INVALID"
+     | [] -> failwith "c05: no outs")
+  | _ -> failwith "c05: bad command"
+
 let dispatch (line : string) : string =
   match String.split_on_char ' ' (String.trim line) with
   | "c08" :: w -> c08 w
@@ -345,6 +362,7 @@ let dispatch (line : string) : string =
   | "c07" :: w -> c07 w
   | "c12" :: w -> c12 w
   | "p2" :: w -> p2 w
+  | "c05" :: w -> c05 w
   | _ -> failwith ("bad line: " ^ line)
 
 let () =
